@@ -2,6 +2,7 @@ import LanceModel.C30.LoopLemmas
 import LanceModel.C30.EncLemmas
 import LanceModel.C30.QueueLemmas
 import LanceModel.C30.DrainLemmas
+import LanceModel.C30.WakeLemmas
 /-
 C30 — The I/O scheduler returns exactly the requested bytes and always completes.
 
@@ -225,6 +226,62 @@ theorem close_cancels (cap buf : Nat) (g : G) (h : Reachable cap buf g) :
 theorem batch_consume (s : QState) (b1 b2 p n : Nat) :
     qBytesConsumed s (b1 + b2) p (n + 1) = qBytesConsumed (qBytesConsumed s b1 p 1) b2 p n := by
   simp only [qBytesConsumed, removeN, Int.natCast_add, Int.add_assoc]
+
+/-! ### the I/O loop and its wake-ups (Wake.lean) -/
+
+/-- `no_lost_wakeup`: with the code's notify sites (push, on_iop_complete, on_bytes_consumed, close each call `notify_one`
+    after the state change) — in every reachable state of queue + I/O loop, if the loop is parked (or about to park with no
+    permit stored) then `next_task` may return `None` in the current state; equivalently: whenever a task is pending and every
+    task `next_task` could peek is deliverable, the loop is awake or has a wake-up pending. -/
+theorem no_lost_wakeup (cap buf : Nat) (w : W) (h : WReachable (fun _ => true) cap buf w) :
+    (asleep w = true → (step w.g .nextNone).isSome = true) ∧
+    (w.g.q.pending ≠ [] → (∀ t, isMin w.g.q t = true → canDeliver w.g.q t = true) → asleep w = false) := by
+  have hinv := winv_reachable cap buf w h
+  refine ⟨hinv, ?_⟩
+  intro hp hall
+  cases ha : asleep w with
+  | false => rfl
+  | true =>
+    have hn := hinv ha
+    simp only [step] at hn
+    split at hn
+    · rename_i hc
+      simp only [Bool.or_eq_true, List.isEmpty_iff, List.any_eq_true, Bool.and_eq_true,
+        Bool.not_eq_eq_eq_not, Bool.not_true] at hc
+      rcases hc with hc | ⟨t, _, hmin, hcan⟩
+      · exact absurd hc hp
+      · rw [hall t hmin] at hcan; cases hcan
+    · simp at hn
+
+/-- the seeded shape: A (prio 5, 10 bytes = the whole budget) is read and not consumed, the loop parks; B (prio 7) is pushed,
+    is throttled, the loop parks again; C (prio 1) is pushed -/
+def seededTrace : List WEv :=
+  [.queue (.push ⟨0, 5, 10⟩), .loopNext ⟨0, 5, 10⟩, .queue (.iopDone ⟨0, 5, 10⟩), .loopNone, .loopAwait, .loopNone, .loopAwait,
+   .queue (.push ⟨100, 7, 10⟩), .loopNone, .loopAwait, .queue (.push ⟨200, 1, 10⟩)]
+
+/-- the notify in `push` is needed even when the queue is not empty: if `push` only notified an idle (empty) queue, the loop
+    would stay parked although the newly pushed, more urgent task is deliverable through the priority bypass.
+    (Shape: A prio 5 delivered and unconsumed uses the budget; B prio 7 throttled, loop parks; C prio 1 pushed.) -/
+theorem lost_wakeup_if_push_notifies_only_idle_queue :
+    ∃ w, WReachable (fun g => g.q.pending.isEmpty) 2 10 w ∧ asleep w = true ∧
+      w.g.q.pending ≠ [] ∧ (∀ t, isMin w.g.q t = true → canDeliver w.g.q t = true) := by
+  have hobs : (wrunAll (fun g => g.q.pending.isEmpty) (W.new 2 10) seededTrace).map
+      (fun w => (asleep w, w.g.q.pending.isEmpty,
+        w.g.q.pending.all (fun t => !isMin w.g.q t || canDeliver w.g.q t))) = some (true, false, true) := by decide
+  cases hw : wrunAll (fun g => g.q.pending.isEmpty) (W.new 2 10) seededTrace with
+  | none => simp [hw] at hobs
+  | some w =>
+    simp only [hw, Option.map_some, Option.some.injEq, Prod.mk.injEq] at hobs
+    obtain ⟨h1, h2, h3⟩ := hobs
+    refine ⟨w, wreachable_wrunAll _ 2 10 seededTrace _ w .init hw, h1, ?_, ?_⟩
+    · intro he; simp [he] at h2
+    · intro t ht
+      have hmem : t ∈ w.g.q.pending := isMin_mem _ t ht
+      have := List.all_eq_true.mp h3 t hmem
+      simpa [ht] using this
+
+-- with the code's notify sites the same events leave the loop awake (the last push wakes it)
+example : (wrunAll (fun _ => true) (W.new 2 10) seededTrace).map asleep = some false := by decide
 
 -- non-vacuity: a reachable state in which `next_task` is refused by the byte budget while a smaller priority is in flight
 def exG : G :=
